@@ -6,7 +6,7 @@
    contract of random.Random (0 <= k < 2^53, 0 <= _randbelow(n) < n), which [C11_contract_satisfiable] shows
    to be satisfiable.  After the sections close, the theorems quantify over R, r_unit, r_below, r_seed. *)
 From Isobar Require Import Base.Prelude Pat.Chance Pat.ChanceProofs Pat.ChanceCopy Pat.ChanceCopyProofs
-  Pat.ChanceSeed Pat.ChanceSeedProofs.
+  Pat.ChanceSeed Pat.ChanceSeedProofs Pat.Seeded Pat.SeededProofs Pat.SeededNest Pat.SeededNestProofs Pat.SeededNestIso.
 From Coq Require Import QArith Permutation Lqa.
 Local Notation length := List.length (only parsing).
 Open Scope Z_scope.
@@ -382,3 +382,75 @@ Example C11_seed_salted_hash_nonvacuous :
   run Z ChanceSeedProofs.toy_seed m (fresh Z ChanceSeedProofs.toy_seed m (seed_key_hashed toy_hash 1 verse)) [Next; Next]
   <> run Z ChanceSeedProofs.toy_seed m (fresh Z ChanceSeedProofs.toy_seed m (seed_key_hashed toy_hash 2 verse)) [Next; Next].
 Proof. exact hashed_seed_differs. Qed.
+
+(** * Seeded stochastic patterns nested inside seeded stochastic patterns (Pat/SeededNest.v, Pat/SeededNestIso.v)
+   Outer(Inner(..).seed(a), ..).seed(b): the parent owns a generator and a seed, its __next__ is ANY program over its own
+   draws and "next value of child i"; every child is a seedable object with its own generator, seed and class.  A history of
+   the nest: next() / reset() / seed(s) of the parent, seed(s) of child i (through the reference the caller kept), in any
+   order and number — so inner-first (the in-line form), outer-first and re-seeding later are all histories. *)
+Section Nested.
+  Variable R : Type.
+  Variable r_unit : R -> Z * R.
+  Variable r_below : Z -> R -> Z * R.
+  Variable r_seed : Z -> R.
+  Variables StC CfC St : Type.
+  Variable pc : pclass R St.
+
+  (* after ANY history, child i is in the state of that child ALONE under its own operations — a next() per value the
+     parent pulled, a reset() per reset() of the parent, a seed(s) per seed(s) the caller gave it — and the values the
+     parent obtained from it are the outputs of that stand-alone child: the inner pattern's sequence is that of ITS seed
+     whatever is done to the outer one *)
+  Theorem C11_nested_inner_is_standalone : forall i h o cls c, nth_error (n_kids o) i = Some (cls, c) ->
+    nth_error (n_kids (nafter R r_unit r_below r_seed StC CfC pc o h)) i
+      = Some (cls, kafter R r_seed cls c (kid_ops R r_unit r_below r_seed StC CfC St pc i o h)) /\
+    kid_pulls R r_unit r_below r_seed StC CfC St pc i o h
+      = krun R r_seed cls c (kid_ops R r_unit r_below r_seed StC CfC St pc i o h).
+  Proof. exact (nested_child_is_standalone R r_unit r_below r_seed StC CfC St pc). Qed.
+
+  (* ... and the only seeds among those operations are the ones the caller gave THAT child: a seed() of the parent, or of
+     another child, never reaches it *)
+  Theorem C11_nested_only_own_seeds_reach_inner : forall i h o,
+    kseeds CfC (kid_ops R r_unit r_below r_seed StC CfC St pc i o h) = nseeds i h.
+  Proof. exact (kid_ops_seeds R r_unit r_below r_seed StC CfC St pc). Qed.
+
+  Theorem C11_nested_outer_seed_leaves_inner : forall o s,
+    n_kids (fst (ndo R r_unit r_below r_seed StC CfC pc o (NSeed s))) = n_kids o.
+  Proof. exact (parent_seed_leaves_children R r_unit r_below r_seed StC CfC St pc). Qed.
+
+  (* vice versa: seeding a child leaves the parent's state, generator and stored seed, and every other child, alone *)
+  Theorem C11_nested_inner_seed_leaves_outer : forall o i s,
+    n_st (fst (ndo R r_unit r_below r_seed StC CfC pc o (NKidSeed i s))) = n_st o /\
+    n_gen (fst (ndo R r_unit r_below r_seed StC CfC pc o (NKidSeed i s))) = n_gen o /\
+    n_seed (fst (ndo R r_unit r_below r_seed StC CfC pc o (NKidSeed i s))) = n_seed o /\
+    forall j, j <> i -> nth_error (n_kids (fst (ndo R r_unit r_below r_seed StC CfC pc o (NKidSeed i s)))) j = nth_error (n_kids o) j.
+  Proof. exact (inner_seed_leaves_outer R r_unit r_below r_seed StC CfC St pc). Qed.
+End Nested.
+Print Assumptions C11_nested_inner_is_standalone.
+Print Assumptions C11_nested_only_own_seeds_reach_inner.
+
+(* supports through the nesting: PSkip over a seeded child yields the value it pulled from the child, or a rest in its
+   place, or the child's StopIteration / exception — never a value the source did not produce *)
+Theorem C11_nested_skip_passes_source : forall R r_unit r_below r_seed StC CfC play g (kids : list (kid R StC CfC)),
+  let r := fst (fst (fst (exec R r_unit r_below r_seed StC CfC (pskip_step play tt) g kids))) in
+  match pulled R r_unit r_below r_seed StC CfC 0 (pskip_step play tt) g kids with
+  | [v] => r = v \/ (exists x, v = Out x /\ r = Out ONone)
+  | [] => r = Fail
+  | _ => False
+  end.
+Proof. exact pskip_passes_source. Qed.
+Print Assumptions C11_nested_skip_passes_source.
+
+(* not vacuous: PSkip(PWhite(0, 1000).seed(1), 0.5).seed(2) on a toy generator — seeded inner-first (the in-line form) or
+   outer-first, the values PSkip obtains from the PWhite are those of a stand-alone PWhite seeded 1, and they are not those
+   of a PWhite seeded 2 (what an outer seed() that also seeds its inputs would produce) *)
+Example C11_nested_nonvacuous :
+  let cls := of_machine Z (white Z toy_unit false 0 1000 0) in
+  let o := nnew Z ChanceCopyProofs.toy_seed Z unit (pskip Z (1 # 2)) 77 [(cls, 88)] in
+  let pulls h := kid_pulls Z toy_unit toy_below ChanceCopyProofs.toy_seed Z unit unit (pskip Z (1 # 2)) 0 o h in
+  let alone s := krun Z ChanceCopyProofs.toy_seed cls (kafter Z ChanceCopyProofs.toy_seed cls (knew Z ChanceCopyProofs.toy_seed cls 88) [KSeed s])
+                      [KNext; KNext; KNext] in
+  pulls [NKidSeed 0 1; NSeed 2; NNext; NNext; NNext] = alone 1 /\
+  pulls [NSeed 2; NKidSeed 0 1; NNext; NNext; NNext] = alone 1 /\
+  pulls [NKidSeed 0 1; NNext; NSeed 2; NNext; NNext] = alone 1 /\
+  alone 1 <> alone 2.
+Proof. repeat split; try (vm_compute; reflexivity). vm_compute. discriminate. Qed.
